@@ -156,3 +156,34 @@ func (e *Env) constByCode(t types.Type, code string) (facts.Value, bool) {
 	}
 	return facts.Value{}, false
 }
+
+// inlineHelpers returns the predicate the path models use to expand calls in place: unexported
+// functions and methods of the library packages (helpers a maintainer may extract), except the ones
+// a rule needs to see as calls (the per-token decoders, the options constructor, the template helpers).
+func (e *Env) inlineHelpers(except ...*types.Func) func(*ssa.Function) bool {
+	skip := map[types.Object]bool{}
+	for _, f := range except {
+		if f != nil {
+			skip[f] = true
+		}
+	}
+	for _, v := range []*spec.Version{&spec.V3, &spec.V2} {
+		if ls, err := e.F.Levels(v); err == nil {
+			for _, l := range ls {
+				if l.DecodeOne != nil {
+					skip[l.DecodeOne] = true
+				}
+			}
+		}
+	}
+	return func(fn *ssa.Function) bool {
+		if fn.Pkg == nil || !load.IsLib(fn.Pkg.Pkg.Path()) || fn.Parent() != nil || len(fn.Blocks) == 0 {
+			return false
+		}
+		obj, _ := fn.Object().(*types.Func)
+		if obj == nil || obj.Exported() || skip[obj] {
+			return false
+		}
+		return true
+	}
+}
